@@ -8,6 +8,7 @@ import (
 	"path/filepath"
 	"sort"
 	"strings"
+	"sync"
 
 	"golang.org/x/tools/go/packages"
 	"golang.org/x/tools/go/ssa"
@@ -35,6 +36,9 @@ type Config struct {
 	PreemptBound    int
 	MaxSleeps       int
 	Witnesses       int
+	Gen             bool
+	NoCache         bool
+	Params          map[string]int
 }
 
 const modPath = "github.com/rs/zerolog"
@@ -51,6 +55,9 @@ type Engine struct {
 	refused            map[string]bool
 	initPkgs           []*ssa.Package
 	harnessFiles       map[string][]string // pkg dir (virtual) -> harness files
+	extraOverlay       map[string]string   // generated files: virtual -> real
+	idxMu              sync.Mutex
+	idxCache           map[*ssa.Function]map[ssa.Value]int
 }
 
 // buildOverlay maps every file under cfg.HarnessDir/<rel>/ to cfg.RepoDir/<rel>/ ("_root" = ".").
@@ -58,6 +65,14 @@ func (e *Engine) buildOverlay() error {
 	e.overlay = map[string][]byte{}
 	e.overlayFiles = map[string]string{}
 	e.harnessFiles = map[string][]string{}
+	for virt, real := range e.extraOverlay {
+		data, err := os.ReadFile(real)
+		if err != nil {
+			return err
+		}
+		e.overlay[virt] = data
+		e.overlayFiles[virt] = real
+	}
 	return filepath.Walk(e.cfg.HarnessDir, func(p string, info os.FileInfo, err error) error {
 		if err != nil || info.IsDir() || !strings.HasSuffix(p, ".go") {
 			return err
